@@ -32,3 +32,29 @@ def case(objs, events, rels=None, **kw):
 
 def sample_at(w, k):
     return {v: w[v][k] for v in w}
+
+
+def ct_obj(phi, S=1, vars_=None, factory="StlDenseTimeSpecification", mode=None, **kw):
+    vs = list(vars_ if vars_ is not None else vars_of(phi))
+    io = {v: "output" for v in vs}
+    o = {"S": S, "vars": vs, "mode": mode or {"sem": "standard", "io": io}, "dense": True,
+         "phi": phi, "text": kw.pop("text", None) or "out = " + to_text(phi, S), "factory": factory}
+    o.update(kw)
+    return o
+
+
+def ev_ct(a, w, o=1, **kw):
+    e = {"o": o, "a": a, "w": w}
+    e.update(kw)
+    return e
+
+
+def gen_signal(rng, n, t0=0, tmax=12, S=1, lo=-4, hi=4, end=None):
+    """n samples at distinct integer times starting at t0 (last at `end` if given)"""
+    n = max(1, n)
+    if end is not None:
+        inner = sorted(rng.sample(range(t0 + 1, end), max(0, min(n - 2, end - t0 - 1)))) if end - t0 > 1 else []
+        ts = [t0] + inner + ([end] if end > t0 else [])
+    else:
+        ts = [t0] + sorted(rng.sample(range(t0 + 1, tmax + 1), min(n - 1, tmax - t0)))
+    return [[t, rng.randint(lo * S, hi * S)] for t in ts]
